@@ -62,11 +62,16 @@ def default_false_bnew(t):
         default_false_bnew(a)
 
 
-def compile_programs(programs, formats=FORMATS, repo=None):
-    """Runs the real compiler.  Returns {id: {fmt: step result}}"""
+def compile_programs(programs, formats=FORMATS, repo=None, mode="pool"):
+    """Runs the real compiler.  Returns {id: {fmt: step result}}.
+    mode "pool": long-lived compilers (arbitrary history); "fresh": a new process and new compilers per program"""
     jobs = []
     for p in programs:
         steps = []
+        if mode == "fresh":
+            for fi, f in enumerate(FORMATS):
+                if f in formats:
+                    steps.append({"op": "new", "inst": fi, "format": f})
         for s in p.get("subs", []):
             steps.append({"op": "addsub", "inst": 0, "name": s["name"], "ret": s["ret_c"],
                           "params": s["params_c"], "body": s["body_text"]})
@@ -80,12 +85,14 @@ def compile_programs(programs, formats=FORMATS, repo=None):
             else:
                 steps.append({"op": "insn", "inst": fi, "name": p.get("name", p["id"]), "behaviors": [text], "fmt": f})
         jobs.append({"id": p["id"], "steps": steps})
-    res = impl.run_jobs(jobs, repo=repo)
+    res = impl.run_jobs(jobs, repo=repo, mode=mode)
     out = {}
     for p in programs:
         r = res[p["id"]]
         if r.get("harness_error"):
             raise impl.ImplError(r["harness_error"])
+        if mode == "fresh":
+            r["res"] = r["res"][len([f for f in FORMATS if f in formats]):]
         nsub = len(p.get("subs", []))
         d = {"subs": r["res"][:nsub]}
         i = nsub
